@@ -187,6 +187,18 @@ fn gen_kv_input(rng: &mut Rng, sep: &[u8]) -> (Vec<u8>, &'static str) {
         b"\"", b"\"\"", b"\"a", b"a\"", b"\"a\"", b"\"\"\"", b"%", b"%4", b"+"];
     match rng.below(10) {
         0 => ({ let n = rng.below(60); rng.bytes(n) }, "random-bytes"),
+        9 if rng.chance(1, 3) => {
+            // a long value of multi-byte characters, raw or percent-encoded, shifted by 0-3 ASCII bytes (anything that cuts, caps or
+            // indexes text by byte count meets a character boundary here), into whatever field it lands
+            let ch = *rng.pick(&["\u{3042}", "\u{e9}", "\u{1f43a}", "\u{72fc}"]);
+            let body: String = "a".repeat(rng.below(4)) + &ch.repeat(rng.range(40, 140));
+            let val = if rng.bool() { body } else { body.bytes().map(|b| if b.is_ascii_alphanumeric() { (b as char).to_string() } else { format!("%{b:02X}") }).collect() };
+            let mut v = vec![];
+            v.extend_from_slice(rng.pick(&keys).as_bytes());
+            v.push(b'=');
+            v.extend_from_slice(val.as_bytes());
+            (v, "long-multibyte-value")
+        }
         1 | 2 | 3 | 4 => {
             let n = rng.range(1, 4);
             let mut v = vec![];
@@ -222,7 +234,7 @@ fn gen_multipart_input(rng: &mut Rng) -> (Vec<u8>, &'static str) {
         if rng.bool() { FormPart::Text { name, value: rng.pick(&["", "hello", "two\r\nlines", "狼"]).to_string() } }
         else { FormPart::File { name, filename: rng.pick(&["", "a.png", "b c.txt"]).to_string(), mime: rng.pick(&["", "image/png", "multipart/mixed", "text/plain"]).to_string(), content: { let cs: [&[u8]; 4] = [b"", b"abc", b"\r\n", b"\xff\x00--"]; rng.pick(&cs).to_vec() } } }
     }).collect();
-    let valid = encode(&parts, &EncodeOpts { boundary: rng.pick(&["b", "----WebKitFormBoundaryX", "a'()+_,-./:=?"]).to_string(), extra_headers: rng.chance(1, 4), lower_header_names: rng.chance(1, 4), content_type_first: rng.chance(1, 4) });
+    let valid = encode(&parts, &EncodeOpts { boundary: rng.pick(&["b", "----WebKitFormBoundaryX", "a'()+_,-./:=?"]).to_string(), extra_headers: rng.chance(1, 4), extra_at: rng.below(3) as u8, lower_header_names: rng.chance(1, 4), content_type_first: rng.chance(1, 4) });
     match rng.below(10) {
         0 => ({ let n = rng.below(120); rng.bytes(n) }, "random-bytes"),
         1 | 2 | 3 => (valid, "grammar-valid"),
